@@ -559,6 +559,7 @@ type FieldCoverSpec struct {
 	Writes bool
 	Target string // parameter name (reads) or type name (writes)
 	Except map[string]string
+	AllPaths bool // writes_all_paths: the field is stored on EVERY path to a return
 }
 
 type SpecFunc struct {
@@ -1007,11 +1008,11 @@ func parseContractFile(path, pkgPath string) (*SpecFile, error) {
 				cs.Shared[strings.TrimSpace(name)] = reason
 			}
 			cur.Carries = append(cur.Carries, cs)
-		case "reads_all", "writes_all":
+		case "reads_all", "writes_all", "writes_all_paths":
 			if cur == nil {
 				return nil, fail(fmt.Errorf("%s outside func", kw))
 			}
-			fc := &FieldCoverSpec{Writes: kw == "writes_all", Except: map[string]string{}}
+			fc := &FieldCoverSpec{Writes: kw != "reads_all", AllPaths: kw == "writes_all_paths", Except: map[string]string{}}
 			body := rest
 			if i := strings.Index(body, " except "); i >= 0 {
 				for _, it := range splitTop(body[i+8:], ',') {
